@@ -192,6 +192,13 @@ func engineAnyu(rep *Report) {
 				if d.Oneofs().Len() > 0 {
 					hostile = append(hostile, &anypb.Any{TypeUrl: "/" + string(d.Oneofs().Get(0).FullName()), Value: a.Value})
 				}
+				if f.Extensions().Len() > 0 {
+					hostile = append(hostile, &anypb.Any{TypeUrl: "/" + string(f.Extensions().Get(0).FullName()), Value: a.Value})
+				}
+				if d.Enums().Len() > 0 {
+					hostile = append(hostile, &anypb.Any{TypeUrl: "/" + string(d.Enums().Get(0).Values().Get(0).FullName()), Value: a.Value})
+				}
+				hostile = append(hostile, &anypb.Any{TypeUrl: "/google.protobuf.FieldDescriptorProto.name", Value: a.Value}, &anypb.Any{TypeUrl: "/google.protobuf.NULL_VALUE", Value: a.Value})
 				hostile = append(hostile, &anypb.Any{TypeUrl: "/google.protobuf.NullValue", Value: nil}, &anypb.Any{TypeUrl: "/google.protobuf.FieldDescriptorProto.Type", Value: []byte{1}})
 				type resolvers struct {
 					name string
@@ -332,16 +339,22 @@ func engineAnyu(rep *Report) {
 						}
 					}
 				}
-				for _, rv := range rs {
-					var um proto.Message
-					var ue error
-					pan, pmsg = safely(func() { um, ue = anyutil.Unpack(h, rv.f, rv.t) })
-					rep.Count("C16", "hostile-unpacks", 1)
-					rep.Eval("C16", []byte("hostile|"+rv.name+"|"+h.TypeUrl+"|"+string(h.Value)), true)
-					if pan {
-						rep.Violate("C16", "anyu/unpack-panics", tn, fmt.Sprintf("Unpack(url=%q, resolvers=%s) panics: %s", h.TypeUrl, rv.name, pmsg), map[string]interface{}{"engine": "anyu", "type": tn, "index": i, "seed": *flagSeed, "url": h.TypeUrl, "resolvers": rv.name})
-					} else if ue == nil && um == nil {
-						rep.Violate("C16", "anyu/unpack-nil-nil", tn, fmt.Sprintf("Unpack(url=%q, %s) returned neither message nor error", h.TypeUrl, rv.name), rc)
+				hs := []*anypb.Any{h}
+				if i == 0 {
+					hs = hostile // the whole list once per type, whatever the number of cases of the tier
+				}
+				for _, h := range hs {
+					for _, rv := range rs {
+						var um proto.Message
+						var ue error
+						pan, pmsg = safely(func() { um, ue = anyutil.Unpack(h, rv.f, rv.t) })
+						rep.Count("C16", "hostile-unpacks", 1)
+						rep.Eval("C16", []byte("hostile|"+rv.name+"|"+h.TypeUrl+"|"+string(h.Value)), true)
+						if pan {
+							rep.Violate("C16", "anyu/unpack-panics", tn, fmt.Sprintf("Unpack(url=%q, resolvers=%s) panics: %s", h.TypeUrl, rv.name, pmsg), map[string]interface{}{"engine": "anyu", "type": tn, "index": i, "seed": *flagSeed, "url": h.TypeUrl, "resolvers": rv.name})
+						} else if ue == nil && um == nil {
+							rep.Violate("C16", "anyu/unpack-nil-nil", tn, fmt.Sprintf("Unpack(url=%q, %s) returned neither message nor error", h.TypeUrl, rv.name), rc)
+						}
 					}
 				}
 			})
